@@ -23,6 +23,17 @@ def main(argv: list[str]) -> int:
         print(__doc__)
         return 2
     prop, tier = argv[0], argv[1]
+    if "--replay" in argv:
+        # A replay file records the failing input together with the seed and tier of
+        # the run that found it; every random choice derives from the seed, so
+        # re-running the check with them reproduces the report.
+        import json
+        import os
+        path = argv[argv.index("--replay") + 1]
+        data = json.load(open(path))
+        print(json.dumps({k: v for k, v in data.items() if k not in ("steps",)}, indent=1, default=str)[:6000])
+        os.environ["VERIF_SEED"] = str(data.get("seed", 0))
+        tier = data.get("tier", tier)
     try:
         mod = importlib.import_module(f"harness.{prop.lower()}")
     except ModuleNotFoundError:
